@@ -401,9 +401,52 @@ def _build(cls):
     return ws, ents[cls]
 
 
+class _Handle:  # enough of an entity for fixtures.find
+    def __init__(self, ent):
+        self.uid = ent.uid
+        self.is_pg = hasattr(ent, "properties")
+        self.parent = _Handle(ent.parent) if self.is_pg else None
+        if self.is_pg:
+            self.properties = None
+
+
+@functools.lru_cache(maxsize=None)
+def _stored_fixture(cls):
+    """(bytes of the closed file holding the fixture of `cls`, handle of the fixture entity, uid
+    counter after the build) - the 'pre' variant starts from these bytes instead of rebuilding;
+    the uid stream is advanced to the same point, so both paths are byte-identical."""
+    import uuid as _uuid
+
+    world.reset("asc")
+    ws, ent = _build(cls)
+    handle = None if ent is None else _Handle(ent)
+    ws.close()
+    return ws.h5file.getvalue(), handle, world.uid_counter()
+
+
+def _open_stored(cls):
+    import uuid as _uuid
+
+    data, handle, counter = _stored_fixture(cls)
+    world.reset("asc")
+    while world.uid_counter() < counter:
+        _uuid.uuid4()
+    ws = _workspace()(io.BytesIO(data), mode="r+")
+    return ws, (None if handle is None else fixtures.find(ws, handle))
+
+
 def _reopen_rw(ws, ent):
     ws2 = fixtures.reopen(ws, "r+")
     return ws2, (None if ent is None else fixtures.find(ws2, ent))
+
+
+_CASES = [0]
+
+
+def _collect_sometimes():
+    _CASES[0] += 1
+    if _CASES[0] % 20 == 0:
+        world.full_collect()
 
 
 def execute(history) -> dict:
@@ -411,13 +454,14 @@ def execute(history) -> dict:
     world.reset("asc")
     cls, tname = history["cls"], history.get("target", "self")
     obs = {"steps": [], "phase": "build"}
-    ws, ent = _build(cls)
     try:
         if history.get("pre"):
             obs["phase"] = "pre-reopen"
-            ws, ent = _reopen_rw(ws, ent)
+            ws, ent = _open_stored(cls)
             if cls != "Workspace" and ent is None:
                 raise LookupError("fixture entity absent after re-opening")
+        else:
+            ws, ent = _build(cls)
         obs["phase"] = "resolve"
         memo = {}
         target = resolve(ws, ent, cls, tname, memo)
@@ -484,7 +528,7 @@ def execute(history) -> dict:
                 if found:
                     obs["raw"][step["attr"]] = val
     obs["phase"] = "done"
-    world.full_collect()
+    _collect_sometimes()
     return obs
 
 
@@ -538,8 +582,11 @@ def judge(history, obs) -> list:  # noqa: C901  pylint: disable=too-many-branche
     cls, tname = history["cls"], history.get("target", "self")
     if "fatal" in obs:
         if obs["phase"] == "pre-reopen":  # a stored entity of this class makes the file unreadable: nothing assigned can be seen
-            viol.append(("later-reader-can-read", f"{cls}:file-with-unmodified-entity-unreadable", {"error": obs["fatal"]}))
-        return viol
+            viol.append(("later-reader-can-read", f"{cls}:file-with-unmodified-entity-unreadable", {"error": obs["fatal"], "about": ["<file>"]}))
+            return viol
+        from .core import HarnessError
+
+        raise HarnessError(f"fixture of {cls} / target {tname} could not be built or resolved ({obs['phase']}): {obs['fatal']}")
     tcls = obs["target_class"]
     steps = obs["steps"]
     accepted = [s for s in steps if s["status"] == "accepted"]
@@ -566,13 +613,15 @@ def judge(history, obs) -> list:  # noqa: C901  pylint: disable=too-many-branche
         s = accepted[-1]
         field = _field(s["attr"], tcls)
         witness = f"{field}{tag}:index-without-data" if tag == "[concatenated]" and "NoneType" in obs["fatal_after_assign"] else wit(s)
-        viol.append(("later-reader-can-read", witness, {"error": obs["fatal_after_assign"], "class": tcls, "assigned": s["attr"]}))
+        viol.append(("later-reader-can-read", witness, {"error": obs["fatal_after_assign"], "class": tcls, "assigned": s["attr"], "about": ["<file>"]}))
         return viol
     live, reop, raw = obs["live"], obs["reopen"], obs["raw"]
     base = baseline(cls, tname, bool(history.get("pre") or history.get("mid")))
     if base and base[0] == "!fatal":
         base = ()
     fields = [_field(s["attr"], tcls) for s in accepted]
+    if len(accepted) > 1 and any(rule_excluded(history, obs, s["attr"]) for s in accepted):
+        return viol  # e.g. renaming comments changes the class the reader builds: judged in the single only
     any_excluded = False
     for idx, s in enumerate(accepted):
         attr = s["attr"]
@@ -588,7 +637,7 @@ def judge(history, obs) -> list:  # noqa: C901  pylint: disable=too-many-branche
         )
         if any(_field(t["attr"], tcls) == fields[idx] for t in later):
             continue  # a later assignment writes the same stored field: judged there
-        detail = {"class": tcls, "assigned": s["expected"], "live": live.get(attr), "reopened": reop.get(attr), "raw": raw.get(attr, "(n/a)"), "baseline_quirks": list(base)}
+        detail = {"about": [attr, fields[idx]], "class": tcls, "assigned": s["expected"], "live": live.get(attr), "reopened": reop.get(attr), "raw": raw.get(attr, "(n/a)"), "baseline_quirks": list(base)}
         judged_assigned = not (clobbered or _derived(s, tcls) or (tcls == "Grid2D" and attr == "dip" and live.get("vertical")))
         if judged_assigned and not matches(s["expected"], reop.get(attr)):
             if s["is_none"] and attr in raw and raw[attr] in (None, s.get("before")) and attr not in KEY_MAP:
@@ -615,7 +664,7 @@ def judge(history, obs) -> list:  # noqa: C901  pylint: disable=too-many-branche
                 (
                     "memory-equals-stored",
                     wit(last, f"->{attr}"),
-                    {"class": tcls, "collateral_attribute": attr, "live": live.get(attr), "reopened": reop.get(attr), "after": [s["attr"] for s in accepted]},
+                    {"about": [attr, _field(attr, tcls)], "class": tcls, "collateral_attribute": attr, "live": live.get(attr), "reopened": reop.get(attr), "after": [s["attr"] for s in accepted]},
                 )
             )
     return viol
@@ -657,13 +706,70 @@ def describe(item) -> dict:
         out["attrs"].append([attr, len(domains.values_for(target, attr)), defining_class(target, attr)])
     out["observed"] = observable(target)
     ws.close()
-    world.full_collect()
+    _collect_sometimes()
     return out
+
+
+@functools.lru_cache(maxsize=8192)
+def _single_violations(cls, tname, attr, vi, pre) -> tuple:
+    h = {"cls": cls, "target": tname, "ops": [[attr, vi]], "pre": pre, "mid": False}
+    return tuple(judge(h, execute(h)))
+
+
+def pair_only(history, viol) -> list:
+    """Of the violations seen in a two-assignment history keep those that neither assignment
+    shows on its own (the singles are enumerated and reported separately): one defect, one
+    signature.  What remains is anchored at the first assignment and marked '|pair-only'."""
+    cls, tname = history["cls"], history.get("target", "self")
+    (a1, v1), (a2, v2) = history["ops"]
+    pre, mid = bool(history.get("pre")), bool(history.get("mid"))
+    singles = list(_single_violations(cls, tname, a1, v1, pre)) + list(_single_violations(cls, tname, a2, v2, pre or mid))
+    explained = set()
+    for _, _, det in singles:
+        explained |= set(det.get("about", ()))
+    first = [w for _, w, d in _first_witness(history)]
+    out = []
+    for clause, witness, det in viol:
+        if set(det.get("about", ())) & explained:
+            continue
+        anchor = witness
+        if "<file>" in det.get("about", ()) or "collateral_attribute" in det:
+            anchor = (first[0] if first else witness) + (f"->{det['collateral_attribute']}" if "collateral_attribute" in det else "")
+        out.append((clause, anchor + "|pair-only", dict(det, pair=[a1, a2])))
+    return out
+
+
+def _first_witness(history):
+    """Witness the first assignment of a pair would carry (computed on the single history)."""
+    cls, tname = history["cls"], history.get("target", "self")
+    a1, v1 = history["ops"][0]
+    h = {"cls": cls, "target": tname, "ops": [[a1, v1]], "pre": bool(history.get("pre")), "mid": False}
+    return _witness_of_single(cls, tname, a1, v1, bool(history.get("pre")))
+
+
+@functools.lru_cache(maxsize=8192)
+def _witness_of_single(cls, tname, attr, vi, pre) -> tuple:
+    h = {"cls": cls, "target": tname, "ops": [[attr, vi]], "pre": pre, "mid": False}
+    obs = execute(h)
+    steps = [s for s in obs.get("steps", []) if s["status"] == "accepted"]
+    if not steps or "target_class" not in obs:
+        return ()
+    s0 = steps[0]
+    tcls = obs["target_class"]
+    kind, tag = kind_tag(obs["mro"]), obs["storage"]
+    field = _field(s0["attr"], tcls)
+    defining = s0["defining"] if field == s0["attr"] else (s0.get("field_defining") or s0["defining"])
+    base = f"{defining}.{field}"
+    if defining in ("Entity", "EntityContainer", "EntityType") and kind:
+        base += f"@{kind}"
+    return (("", f"{base}{'=None' if s0['is_none'] else ''}{tag}", {}),)
 
 
 def run_case(history) -> dict:
     obs = execute(history)
     viol = judge(history, obs)
+    if len(history.get("ops", ())) == 2 and viol:
+        viol = pair_only(history, viol)
     statuses = tuple(s.get("status") for s in obs.get("steps", []))
     state = None
     if "live" in obs and "reopen" in obs:
